@@ -150,6 +150,18 @@ def oracle(ctx, o, first_only=False):
     rng = ctx.rng
     fails = []
 
+    class _NoWatch:
+        def __enter__(self):
+            return None
+
+        def __exit__(self, *exc):
+            return False
+
+    def call(fn, inp):
+        # a stored string must never buy unbounded work: a call that does not come back is reported by the runner's watchdog with `inp`
+        with (ctx.watch(inp, 90) if hasattr(ctx, "watch") else _NoWatch()):
+            return vc.safe_call(fn)
+
     def chk(tag, ok, inp, observed=None, expected=None):
         o.check(tag, ok, inp, observed, expected)
         if not ok:
@@ -211,17 +223,17 @@ def oracle(ctx, o, first_only=False):
         for m in muts:
             for form in ((m, m.encode("utf-8", "surrogatepass")) if rng.random() < 0.2 else (m,)):
                 inp = {"op": "mutant", "hasher": name, "original": hs, "mutant": form if isinstance(form, str) else form.hex(), "bytes": isinstance(form, bytes)}
-                st, r = vc.safe_call(lambda: hh.identify(form))
+                st, r = call(lambda: hh.identify(form), inp)
                 chk(name + ":identify-never-raises", st == "ok" and r in (True, False), inp, errname(r) if st == "err" else r, "True or False")
                 # scram stores one digest per algorithm and by default checks only the strongest; `full=True` is its documented consistency check
                 vkw = dict(ck, full=True) if name == "scram" else ck
-                st, r = vc.safe_call(lambda: hh.verify(secret, form, **vkw))
+                st, r = call(lambda: hh.verify(secret, form, **vkw), inp)
                 if st == "err":
                     chk(name + ":verify-clean-error", vc.is_clean_error(r), inp, type(r).__name__ + ": " + str(r)[:80], "ValueError / TypeError")
                 elif r is True and name not in ("plaintext", "ldap_plaintext", "roundup_plaintext"):
                     verified.append((name, h, hs, form if isinstance(form, str) else form.decode("utf-8", "replace"), inp))
                 if hasattr(hh, "needs_update"):
-                    st, r = vc.safe_call(lambda: hh.needs_update(form))
+                    st, r = call(lambda: hh.needs_update(form), inp)
                     if st == "err":
                         chk(name + ":needs-update-clean-error", vc.is_clean_error(r), inp, type(r).__name__ + ": " + str(r)[:80], "ValueError / TypeError")
             if fails and first_only:
@@ -232,12 +244,12 @@ def oracle(ctx, o, first_only=False):
             inp = {"op": "context-mutant", "hasher": name, "mutant": m if isinstance(m, str) else m.hex(), "bytes": isinstance(m, bytes)}
             if ck:
                 continue
-            st, r = vc.safe_call(lambda: ctx_all.identify(m))
+            st, r = call(lambda: ctx_all.identify(m), inp)
             chk("context:identify-never-raises", st == "ok", inp, errname(r) if st == "err" else r, "a scheme name or None")
             for fn, tag in ((lambda: ctx_all.verify(secret, m), "verify"), (lambda: ctx_all.needs_update(m), "needs_update"), (lambda: ctx_all.verify_and_update(secret, m), "verify_and_update")):
                 if slow and tag != "verify":
                     continue
-                st, r = vc.safe_call(fn)
+                st, r = call(fn, inp)
                 if st == "err":
                     chk("context:" + tag + "-clean-error", vc.is_clean_error(r), inp, type(r).__name__ + ": " + str(r)[:80], "ValueError / TypeError")
     # ---- a mutant that verified must denote the same settings and digest.  Judged by the C07 parse MODEL where the format has one (so a
@@ -283,7 +295,7 @@ def oracle(ctx, o, first_only=False):
                 m = hs[:m0.start()] + vv + hs[m0.end():]
                 inp = {"op": "huge-cost", "hasher": name, "mutant": m}
                 for fn, tag in ((lambda: h.verify(b"password", m, **ck), "verify"), (lambda: h.needs_update(m), "needs_update"), (lambda: h.identify(m), "identify")):
-                    with_deadline = vc.safe_call(fn)
+                    with_deadline = call(fn, inp)
                     st, r = with_deadline
                     ok = (st == "ok" and r in (True, False) and not (tag == "verify" and r is True)) or (st == "err" and tag != "identify" and vc.is_clean_error(r))
                     chk(name + ":huge-cost-" + tag, ok, inp, (type(r).__name__ + ": " + str(r)[:80]) if st == "err" else r, "False / ValueError")
@@ -302,9 +314,9 @@ def oracle(ctx, o, first_only=False):
         for m in lp_muts:
             inp = {"op": "libpass-mutant", "hasher": type(hh).__name__, "original": hs, "mutant": m}
             for fn, tag in ((lambda: hh.identify(m), "identify"), (lambda: hh.needs_update(m), "needs_update")):
-                st, r = vc.safe_call(fn)
+                st, r = call(fn, inp)
                 chk("libpass:" + tag + "-never-raises", st == "ok" and r in (True, False), inp, errname(r) if st == "err" else r, "True or False")
-            st, r = vc.safe_call(lambda: hh.verify(m, "password"))
+            st, r = call(lambda: hh.verify(m, "password"), inp)
             if st == "err":
                 chk("libpass:verify-clean-error", vc.is_clean_error(r), inp, type(r).__name__ + ": " + str(r)[:80], "ValueError / TypeError or False")
             else:
